@@ -46,6 +46,7 @@ type Program struct {
 // skipped (their package-level variables stay zero).
 var initAllow = []string{
 	icePath,
+	icePath + "/zz_vp_ref",
 	"github.com/blugelabs/bluge_segment_api",
 	"github.com/RoaringBitmap/roaring",
 	"github.com/blevesearch/vellum",
